@@ -50,6 +50,8 @@ def universe():
                                        "up_frac_i": 0.3, "up_frac_f": 0.8, "up_theta": 60.0})
     add("sphere", "call_kernel", QXY, {"radius": 50.0})
     add("sphere", "call_Fq", Q1, {"radius": 70.0, "radius_effective_mode": 1})
+    add("sphere", "call_Fq", Q1, {"radius": 70.0, "radius_effective_mode": 0})
+    add("sphere", "call_Fq", Q1, {"radius": 65.0, "radius_pd": 0.1, "radius_pd_n": 5, "radius_effective_mode": 0})
     add("sphere", "call_Fq", Q1, {"radius": 70.0, "radius_pd": 0.2, "radius_pd_n": 9, "radius_effective_mode": 1})
     add("sphere", "direct", Q1, {"radius": 80.0, "scale": 0.5, "background": 0.1})
     add("sphere", "direct", Q1, {"radius": 80.0, "radius_pd": 0.1, "radius_pd_n": 8}, dq=[0.001, 0.004, 0.01])
@@ -64,6 +66,9 @@ def universe():
         add("cylinder", "call_Fq", Q1, {"radius": 25.0, "length": 300.0, "radius_effective_mode": mode})
     add("cylinder", "call_Fq", Q2, {"radius": 25.0, "length": 300.0, "length_pd": 0.1, "length_pd_n": 6,
                                     "radius_effective_mode": 2})
+    add("cylinder", "call_Fq", Q1, {"radius": 25.0, "length": 300.0, "radius_effective_mode": 0})
+    add("cylinder", "call_Fq", QXY, {"radius": 25.0, "length": 300.0, "theta": 30.0, "radius_effective_mode": 0})
+    add("cylinder", "call_Fq", QXY, {"radius": 25.0, "length": 300.0, "theta": 30.0, "radius_effective_mode": 4})
     add("cylinder", "call_kernel", Q1, {"radius": 20.0, "length": 400.0})
     add("cylinder", "call_kernel", Q1, {"radius": 20.0, "length": 400.0, "radius_pd": 0.1, "radius_pd_n": 7,
                                         "length_pd": 0.2, "length_pd_n": 5})
@@ -168,6 +173,12 @@ def histories(draw):
                 step["pars"][pname + "_pd"] = 0.1
                 step["pars"][pname + "_pd_n"] = npts
                 step["relayout"] = True
+            if step["op"] in ("call_kernel", "call_Fq") and "radius_effective_mode" in step["pars"] and draw(st.integers(0, 3)) == 0:
+                # the same request with the effective-radius mode switched off (slots of the result buffer
+                # that a mode-0 call does not fill must not carry an earlier call's numbers)
+                step["pars"] = dict(step["pars"], radius_effective_mode=0)
+                if "@" in m:
+                    step["pars"].setdefault("radius_effective", 55.0)
             steps.append(step)
         elif kind in ("make_kernel", "release_kernel"):
             qs = draw(st.sampled_from([Q1, Q2, QXY]))
